@@ -276,7 +276,18 @@ fn main() {
                 let f = r.pick(pf).to_string();
                 let pg: &[&str] = *r.pick(&pools);
                 let g = r.pick(pg).to_string();
-                let body = match r.below(22) {
+                // handlers that consume their arguments, produce nothing and fail at run time on most values
+                // (their failure is not syntactically certain, so the compiler keeps their own signature and a
+                // try gives them the error value beneath the arguments)
+                const M10: [&str; 4] = ["°1", "⍤\"m\" =1 ⧻", "°[]", "°0 ⧻"];
+                const M20: [&str; 3] = ["°1 ≍", "⍤\"m\" ≍", "°1 ⊙◌"];
+                let m1 = if r.chance(1, 2) { r.pick(&M10).to_string() } else { r.pick(&M20).to_string() };
+                let m2 = if r.chance(1, 2) { r.pick(&M10).to_string() } else { r.pick(&M20).to_string() };
+                let body = match r.below(27) {
+                    22 | 23 => format!("⍣({f}|{m1}|{g})"),
+                    24 => format!("⍣({f}|{m1}|{m2}|{g})"),
+                    25 => format!("⍣({f}|{g}|{m1}|{f})"),
+                    26 => format!("⍣({m1}|{m2}|{g})"),
                     0 => format!("/({f})"),
                     1 => format!("\\({f})"),
                     2 => format!("∧({f})"),
